@@ -331,6 +331,83 @@ class AbstractExcelInPython(ABC):
 
         return last_valid_value
 
+    def _accepts(self, value: Any, criterion: Any, operand: Any = None):
+        """
+        Tells whether a cell value meets a criterion of SUMIF, SUMIFS, COUNTIFS and AVERAGEIFS.
+
+        Args:
+            value: the value of the cell.
+            criterion: a number, a date or a boolean the cell has to be equal to, or a text: a comparison operator
+                followed by a number, a date or a text (">5", "<>x"), or a text with or without wildcards ("a*").
+            operand: the value joined to the criterion text with an ampersand (">"&E3).
+        """
+        operator = '='
+        if operand is not None and criterion in ('=', '<>', '>', '<', '>=', '<='):
+            # the operand keeps its kind: a date is compared with dates, a number with numbers
+            operator, criterion = criterion, operand
+        elif operand is not None:
+            criterion = self._excel_value_to_string(criterion) + self._excel_value_to_string(operand)
+
+        pattern, spelling = None, None
+        if isinstance(criterion, str):
+            for sign in ('>=', '<=', '<>', '>', '<', '='):
+                if operand is None and criterion.startswith(sign):
+                    operator, criterion = sign, criterion[len(sign):]
+                    break
+
+            spelling, text = criterion, criterion.strip()
+            if text.upper() in ('TRUE', 'FALSE'):
+                criterion = text.upper() == 'TRUE'
+            elif text and text[0] in '+-.0123456789' and self._parse_number(text) is not None:
+                criterion = self._parse_number(text)
+            elif any(char.isdigit() for char in text) and self._parse_date_obj(text):
+                criterion = self._parse_date_obj(text)
+            elif re.search(r'(?<![~])(~~)*[?*]', criterion):
+                pattern = re.compile(self._regexp(criterion), re.IGNORECASE | re.DOTALL)
+            else:
+                criterion = spelling = re.sub('~([?*~])', lambda found: found.group(1), criterion)
+
+        if isinstance(criterion, self.EmptyCell):
+            criterion = 0
+
+        # a date is the date-time at its midnight
+        if isinstance(value, datetime.date) and not isinstance(value, datetime.datetime):
+            value = datetime.datetime(value.year, value.month, value.day)
+        if isinstance(criterion, datetime.date) and not isinstance(criterion, datetime.datetime):
+            criterion = datetime.datetime(criterion.year, criterion.month, criterion.day)
+
+        if pattern:
+            matches = isinstance(value, str) and pattern.fullmatch(value) is not None
+            return matches if operator == '=' else not matches if operator == '<>' else False
+
+        if isinstance(value, str) and spelling is not None and operator in ('=', '<>'):
+            # a text cell is compared with the criterion as it is written, whatever the criterion looks like
+            return (value.lower() == spelling.lower()) == (operator == '=')
+
+        if isinstance(criterion, bool):
+            # the criteria ranges of SUMIFS and AVERAGEIFS hold TRUE and FALSE as 1 and 0
+            comparable = isinstance(value, (bool, int, float))
+        elif isinstance(criterion, (int, float)):
+            comparable = isinstance(value, (int, float)) and not isinstance(value, (bool, self.EmptyCell))
+        elif isinstance(criterion, datetime.datetime):
+            comparable = isinstance(value, datetime.datetime)
+        else:
+            comparable = isinstance(value, str)
+            if comparable:
+                value, criterion = value.lower(), str(criterion).lower()
+
+        if operator == '<>':
+            return not (comparable and value == criterion)
+
+        return comparable and self._by_operator('==' if operator == '=' else operator, value, criterion)
+
+    @staticmethod
+    def _parse_number(text: str):
+        try:
+            return float(text) if any(char in text for char in '.eE') else int(text)
+        except ValueError:
+            return None
+
     def _sum_if(self, range_: List, criteria: Callable, sum_range: List = None):
         result = 0
         range_, sum_range = self._flatten_list(range_), self._flatten_list(sum_range)
